@@ -362,6 +362,22 @@ func genCapx(r *rand.Rand, id string, tier string) string {
 		maxOps = 40
 	}
 	var ops []string
+	if c.Cap >= 2 && r.Intn(4) == 0 {
+		// shrink-then-refill prologue: the slice is rebuilt by Remove / Reset, grown back to full, and then an
+		// Insert is attempted at an interior position of the full stack (it must fail and change nothing)
+		st = genStackLit(r, c, k, true)
+		if r.Intn(3) == 0 {
+			ops = append(ops, "reset")
+			var vs []string
+			for j := 0; j < k; j++ {
+				vs = append(vs, genLeaf(r).String())
+			}
+			ops = append(ops, "push "+strings.Join(vs, " "))
+		} else {
+			ops = append(ops, fmt.Sprintf("rem %d", r.Intn(k)), "push "+genLeaf(r).String()+" "+genLeaf(r).String())
+		}
+		ops = append(ops, fmt.Sprintf("ins %s %d", genLeaf(r), 1+r.Intn(k-1)))
+	}
 	for i, nops := 0, 1+r.Intn(maxOps); i < nops; i++ {
 		switch r.Intn(12) {
 		case 0, 1, 2, 3:
